@@ -10,9 +10,10 @@ import SpyneModel.Generated.Facts06
 namespace SpyneModel.Props.C06
 open SpyneModel SpyneModel.Xml SpyneModel.Schema SpyneModel.Generated
 
-/-- an application as the generator sees it, with the measured generator facts -/
-def app (I : Iface) (enumKeys : List (List Text × Key)) : App :=
-  { facts := facts06, iface := I, enumKeys := enumKeys }
+/-- an application as the generator sees it, with the measured generator and leaf-codec facts;
+    `vals` = the `values=` facet of the non-string primitives -/
+def app (I : Iface) (enumKeys : List (List Text × Key)) (vals : List (PrimTy × List Val) := []) : App :=
+  { facts := facts06, leaf := facts08, iface := I, enumKeys := enumKeys, values := vals }
 
 /-- T1: the type names measured on /repo are the XSD built-ins the model maps the primitives to
     (so that, e.g., the value space `xs:byte` checked by the reference validator is Integer8's) -/
@@ -29,30 +30,44 @@ theorem facts06_good : facts06.Good where
 
 /-- **emitted_valid.** For every well-formed application, every registered class (message classes
     included), every protocol configuration (`polymorphic` on or off) and every instance that
-    satisfies the declared constraints and is representable in XSD: the document the XML encoder
-    writes is valid against the schema generated for the application. -/
-theorem emitted_valid (I : Iface) (ek : List (List Text × Key)) (hwf : (app I ek).wf = true) (cfg : Cfg)
+    satisfies the declared constraints — `conformsOne`, and at every leaf `leafCond`: the value has an
+    XSD literal and is one of the declared `values` if the member declares any — the document the XML
+    encoder writes is valid against the schema generated for the application. -/
+theorem emitted_valid (I : Iface) (ek : List (List Text × Key)) (vals : List (PrimTy × List Val))
+    (hwf : (app I ek vals).wf = true) (cfg : Cfg)
     (C : ClassDef) (hC : C ∈ I.classes) (vs : List (Text × Val))
     (hc : conformsOne (ClassDef.toTy C) (.obj C.name vs) = true)
-    (hr : xsdRepresentable (.obj C.name vs) = true) :
+    (hr : leavesOne (leafCond (app I ek vals)) (ClassDef.toTy C) (.obj C.name vs) = true) :
     ∃ x, encode facts08 cfg I C.ns C.name (ClassDef.toTy C) (.obj C.name vs) = [x] ∧
-      (gen (app I ek)).valid x = true :=
-  emitted_valid_gen facts08 facts08_good (app I ek) hwf cfg C hC vs hc hr
+      (gen (app I ek vals)).valid x = true :=
+  emitted_valid_gen (app I ek vals) facts08_good hwf cfg C hC vs hc hr
+
+/-- **enumeration literals.** Every `<xs:enumeration value=…>` the generator writes for a declared
+    value is the literal the XML protocol puts on the wire for that value (`leafToText`), lies in the
+    lexical and value space of the base type, and the restriction as a whole is legal XSD. -/
+theorem enumeration_literals_legal (I : Iface) (ek : List (List Text × Key)) (vals : List (PrimTy × List Val))
+    (hv : (app I ek vals).valuesWf = true) (p : PrimTy) (hw : Schema.primWf p = true) :
+    (app I ek vals).enumLits p = ((app I ek vals).extraVals p).filterMap (leafToText facts08 p) ∧
+    simpleDefOk { base := builtinOf p, facets := primFacetsA (app I ek vals) p } = true :=
+  ⟨rfl, prim_def_legalA (app I ek vals) facts08_good hv p hw⟩
 
 /-- **schema = denotation.** On a well-formed application the reference validator run on the
     generated schema decides exactly validity for the type the class denotes: every reference of
     the generated documents resolves to the definition generated for it, base chains are followed to
     the root, restrictions carry the declared facets. -/
-theorem generated_schema_denotes (I : Iface) (ek : List (List Text × Key)) (hwf : (app I ek).wf = true)
+theorem generated_schema_denotes (I : Iface) (ek : List (List Text × Key)) (vals : List (PrimTy × List Val))
+    (hwf : (app I ek vals).wf = true)
     (C : ClassDef) (hC : C ∈ I.classes) (x : Node) (hkey : nodeKey x = (C.ns, C.name)) :
-    (gen (app I ek)).valid x = validS (denote facts06 I.tns C.ns (ClassDef.toTy C)) false x :=
-  valid_gen (app I ek) hwf C hC x hkey
+    (gen (app I ek vals)).valid x =
+      validS (denote (primFacetsA (app I ek vals)) I.tns C.ns (ClassDef.toTy C)) false x :=
+  valid_gen (app I ek vals) hwf C hC x hkey
 
 /-- every conformant leaf value is written as a literal of the simple type the schema declares for
     it: lexical space of the XSD built-in and every generated facet -/
-theorem leaf_literal_valid (p : PrimTy) (v : Val) (hv : p.valueOk v = true) (hr : xsdRepresentable v = true) :
-    ∃ s, leafToText facts08 p v = some s ∧ simpleOk (builtinOf p) (primFacets facts06 p) s = true :=
-  leaf_simpleOk facts08 facts08_good facts06 p v hv hr
+theorem leaf_literal_valid (I : Iface) (ek : List (List Text × Key)) (vals : List (PrimTy × List Val))
+    (p : PrimTy) (v : Val) (hv : p.valueOk v = true) (hr : leafCond (app I ek vals) p v = true) :
+    ∃ s, leafToText facts08 p v = some s ∧ simpleOk (builtinOf p) (primFacetsA (app I ek vals) p) s = true :=
+  leaf_simpleOkA (app I ek vals) facts08_good p v hv hr
 
 /-- **lxml_soft_agree.** On a document whose root is the element of a registered class and that is in
     the common form — declared members only, in declared order and namespaces, no attribute but a
@@ -61,14 +76,16 @@ theorem leaf_literal_valid (p : PrimTy) (v : Val) (hv : p.valueOk v = true) (hr 
     What is left to both is exactly what both implement: nillable, minOccurs / maxOccurs, the
     value-space bounds of the integer kinds, ge/gt/le/lt, min_len/max_len, pattern, values,
     enumeration membership. The one-sided constraints excluded by the common form are listed in
-    `OnlySchema` / `OnlySoft`. Holds for the switches of xml.py as measured (`factsXml`), good or not. -/
+    `OnlySchema` / `OnlySoft`. Holds for the switches of xml.py as measured (`factsXml`), good or not.
+    (Stated for applications without `values` on non-string primitives: the soft decoder model is
+    build-XML's and has no such facet; T3 compares the two real validators on enumerated members.) -/
 theorem lxml_soft_agree (I : Iface) (ek : List (List Text × Key)) (hwf : (app I ek).wf = true)
     (C : ClassDef) (hC : C ∈ I.classes) (ns name : Text) (text : Option Text) (children : List Node)
     (hkey : (ns, name) = (C.ns, C.name))
     (hcf : commonForm facts08 factsXml I.tns C.ns (ClassDef.toTy C) (.elem ns name [] text children) = true) :
     (gen (app I ek)).valid (.elem ns name [] text children) =
       softAccepts facts08 factsXml I (ClassDef.toTy C) (.elem ns name [] text children) :=
-  lxml_soft_agree_gen facts08 factsXml (app I ek) hwf C hC ns name text children hkey hcf
+  lxml_soft_agree_gen facts08 factsXml (app I ek) hwf rfl C hC ns name text children hkey hcf
 
 /-! ### the schema compiles -/
 
@@ -79,17 +96,17 @@ theorem lxml_soft_agree (I : Iface) (ek : List (List Text × Key)) (hwf : (app I
     every restriction step legal, every complexType legal (base visible + complex, chain finite,
     member types resolve to visible components, occurrence bounds ordered, deterministic content
     model), every global element resolves. -/
-theorem gen_compiles (I : Iface) (ek : List (List Text × Key)) (hwf : (app I ek).wf = true) :
-    (gen (app I ek)).compiles = true :=
-  Schema.gen_compiles (app I ek) hwf
+theorem gen_compiles (I : Iface) (ek : List (List Text × Key)) (vals : List (PrimTy × List Val))
+    (hwf : (app I ek vals).wf = true) : (gen (app I ek vals)).compiles = true :=
+  Schema.gen_compiles (app I ek vals) facts08_good hwf
 
 /-- every class (message classes included) of a well-formed application gets a complexType
     definition that passes libxml2's checks, and a global element that resolves -/
-theorem class_definitions_compile (I : Iface) (ek : List (List Text × Key)) (hwf : (app I ek).wf = true)
-    (D : ClassDef) (hD : D ∈ (app I ek).allClasses) :
-    complexDefOk (gen (app I ek)) ((D.ns, D.name), (classComplex (app I ek) D).2) = true ∧
-    (gen (app I ek)).hasComplex (D.ns, D.name) = true :=
-  class_definition_ok (app I ek) hwf D hD
+theorem class_definitions_compile (I : Iface) (ek : List (List Text × Key)) (vals : List (PrimTy × List Val))
+    (hwf : (app I ek vals).wf = true) (D : ClassDef) (hD : D ∈ (app I ek vals).allClasses) :
+    complexDefOk (gen (app I ek vals)) ((D.ns, D.name), (classComplex (app I ek vals) D).2) = true ∧
+    (gen (app I ek vals)).hasComplex (D.ns, D.name) = true :=
+  class_definition_ok (app I ek vals) hwf D hD
 
 /-- the restriction written for a well-formed customised integer is legal XSD: every bound is a
     value of the base type and the bounds do not contradict each other -/
@@ -143,7 +160,16 @@ open SpyneModel.Schema.Example in
 example : conformsOne (ClassDef.toTy cMsg) (.obj cMsg.name value) = true := value_conforms
 
 open SpyneModel.Schema.Example in
-example : xsdRepresentable (.obj cMsg.name value) = true := by decide +kernel
+example : leavesOne (leafCond (app iface [] exVals)) (ClassDef.toTy cMsg) (.obj cMsg.name value) = true := by
+  simp [leavesOne, leavesFields, leaves, leavesItems, ClassDef.toTy, cMsg, msgFields, value, derFields, baseFields,
+    Ty.occ, Occ.repeated, itemOcc, T, leafCond, tzOk, App.extraVals, app, exVals, leafEq, List.lookup]
+
+open SpyneModel.Schema.Example in
+/-- with `values = [5, 7]` declared on the Integer8(ge=3) member: wf, compiles, member accepted, non-member rejected -/
+example : (app iface [] exVals).wf = true ∧ (gen (app iface [] exVals)).compiles = true ∧
+    (gen (app iface [] exVals)).valid goodDoc = false ∧
+    (encode facts08 {} iface cMsg.ns cMsg.name (ClassDef.toTy cMsg) (.obj cMsg.name value)).map
+      (fun x => (gen (app iface [] exVals)).valid x) = [true] := by decide +kernel
 
 open SpyneModel.Schema.Example in
 /-- the encoder's document for `value` is accepted by the reference validator (computed by the kernel) -/
